@@ -256,6 +256,9 @@ class Kill(BaseException):
     pass
 
 
+CONCURRENT = ("clear", "occupy")
+
+
 class Shim:
     """numbers every operation of FileSystemBytecodeCache.dump_bytecode."""
 
@@ -276,6 +279,10 @@ class Shim:
         if self.flavour == "kill":
             self.snapshot()
             raise Kill(kind)
+        if self.flavour in CONCURRENT:
+            # not a fault of this process: another process acts on the shared directory at this instant
+            self.snapshot()
+            return
         raise OSError(28, f"injected failure at {kind}")
 
 
@@ -366,6 +373,13 @@ def part_b(arg):
     p = core.Part()
     root = core.scratch_dir("c27b")
     ref = {v: reference("base", "a", v) for v in (1, 2)}
+    # "clear": every cache instance uses a pattern that also matches the temp-file names, so another process
+    # calling clear() removes a half-written temp file too (the situation dump_bytecode's comments describe)
+    kw = {"pattern": "%s"} if flavour == "clear" else {}
+    _FS = FileSystemBytecodeCache
+
+    def FileSystemBytecodeCache(d):  # noqa: N802
+        return _FS(d, **kw)
 
     def fresh(tag):
         d = os.path.join(root, tag)
@@ -402,6 +416,21 @@ def part_b(arg):
             snapdir = os.path.join(root, "snap")
 
             def snapshot():
+                if flavour == "clear":
+                    # another process: FileSystemBytecodeCache(d, pattern).clear(), with the real os module
+                    for fn in os.listdir(d2):
+                        try:
+                            os.remove(os.path.join(d2, fn))
+                        except OSError:
+                            pass
+                    return
+                if flavour == "occupy":
+                    # another process put a directory where the entry is to be renamed to
+                    target = os.path.join(d2, "__jinja2_%s.cache" % _FS(d2).get_cache_key("a", None))
+                    if os.path.isfile(target):
+                        os.remove(target)
+                    os.makedirs(target, exist_ok=True)
+                    return
                 shutil.rmtree(snapdir, ignore_errors=True)
                 shutil.copytree(d2, snapdir)
 
@@ -426,6 +455,13 @@ def part_b(arg):
             recover_dir = snapdir if flavour == "kill" else d2
             if flavour == "kill" and outcome != "killed":
                 raise core.HarnessError(f"kill at op {k} {kind} did not fire: {outcome}")
+            if flavour in CONCURRENT and outcome != ref[2]:
+                # a clear() / an unreplaceable target produced by another process is part of the history the
+                # property quantifies over, not an I/O fault of this process: the load must still render
+                p.violation(f"C27/concurrent-{flavour}/{kind}", {
+                    "msg": f"another process {'cleared the directory' if flavour == 'clear' else 'occupied the entry path with a directory'} "
+                           f"at op {k} ({kind}) with {prior}: get_template+render gave {outcome!r}, expected {ref[2]!r}",
+                    "script": f"from checks import c27\nc27.replay_b({prior!r}, {flavour!r}, {k}, {tear!r})\n"})
             if flavour == "exception":
                 # an I/O error of the cache's own write either propagates as that OSError or is absorbed; nothing else
                 okexc = outcome == ref[2] or (isinstance(outcome, tuple) and outcome[:2] == ("exc", "OSError"))
@@ -530,6 +566,19 @@ def part_c(arg):
         p.sig(("C", opt, "swapped"))
         check("empty", b"", ref)
         check("garbage-after", good_a + b"\x00garbage", ref)
+        # an entry that exists but cannot be opened as a file (a directory at its path): a miss, not an error
+        os.remove(fa)
+        os.makedirs(fa)
+        try:
+            got = make_env(opt, jinja2.DictLoader({"a": source("a", 1)}), FileSystemBytecodeCache(d)).get_template("a").render(**DATA)
+        except Exception as e:  # noqa: BLE001
+            got = ("exc", type(e).__name__)
+        p.evals += 1
+        p.sig(("C", opt, "unopenable"))
+        if got != ref:
+            p.violation("C27/damaged-entry/unopenable", {"msg": f"[{opt}] a directory at the entry's path: get_template/render gave {got!r}, expected {ref!r}",
+                                                          "script": "from checks import c27\nprint('directory at entry path')\n"})
+        os.rmdir(fa)
         p.count("entry_bytes", len(good_a))
     for off in range(max(lo, 1), min(hi, len(good_a))):
         check(f"truncated@{off}", good_a[:off], ref)
@@ -635,7 +684,7 @@ def dispatch(arg):
 def run(ctx: core.Ctx):
     core.import_all_jinja()
     ctx.rule = ("A: every operation on every reachable (source versions, cache entries) state for each configuration pair; "
-                "B: every write-path operation x torn prefix x {kill, OSError} x {empty dir, old entry}; C: every truncation "
+                "B: every write-path operation x torn prefix x {kill, OSError, concurrent clear(), entry path occupied} x {empty dir, old entry}; C: every truncation "
                 "offset + foreign magic + stale + swapped; D: every fake-memcached mode x truncation; distinct = distinct "
                 "(part, configuration, operation/damage kind, outcome)")
     ctx.assumptions += [
@@ -645,7 +694,7 @@ def run(ctx: core.Ctx):
     ]
     opts = OPTIONS if not ctx.quick else ["equal", "noreload", "autoescape", "trim_blocks", "variable_delimiters", "finalize", "enable_async", "sandboxed"]
     shards = [("A", o) for o in opts]
-    shards += [("B", (prior, fl)) for prior in ("empty", "old-entry") for fl in ("kill", "exception")]
+    shards += [("B", (prior, fl)) for prior in ("empty", "old-entry") for fl in ("kill", "exception", "clear", "occupy")]
     step = 200 if ctx.quick else 100
     for o in (["base", "autoescape"] if ctx.quick else ["base", "autoescape", "enable_async", "sandboxed"]):
         shards += [("C", (o, lo, lo + step)) for lo in range(0, 4000, step)]
